@@ -32,34 +32,43 @@ mod harness {
         }
     }
 
-    #[kani::proof]
-    #[kani::unwind(4)]
-    pub fn vec_shift_moves_every_element_in_order() {
-        let n: usize = kani::any();
-        kani::assume(n <= 2);
-        let offset: usize = kani::any();
-        let mut s: [(usize, usize, u8); 2] = kani::any();
-        // message kinds are fixed per slot (0 and 1): the message is moved, never inspected, by the code under check
-        s[0].2 = 0;
-        s[1].2 = 1;
-        let mut v = Vec::new();
-        let mut i = 0;
-        while i < n {
-            // precondition of the contract: the displaced range is representable
-            kani::assume(s[i].0 <= usize::MAX - offset && s[i].1 <= usize::MAX - offset);
-            v.push(SplError(s[i].0..s[i].1, msg(s[i].2)));
-            i += 1;
-        }
-        let r = v.shift(offset);
-        kani::cover!(n == 2 && offset > 0, "two elements moved");
-        assert!(r.len() == n);
-        let mut i = 0;
-        while i < n {
-            assert!(r[i].0.start == s[i].0 + offset && r[i].0.end == s[i].1 + offset);
-            assert!(same_kind(&r[i].1, s[i].2));
-            i += 1;
-        }
+    macro_rules! harnesses {
+        ($modname:ident, $n:expr) => {
+            pub mod $modname {
+                use super::*;
+                #[kani::proof]
+                #[kani::unwind(4)]
+                pub fn vec_shift_moves_every_element_in_order() {
+                    let n: usize = kani::any();
+                    kani::assume(n <= $n);
+                    let offset: usize = kani::any();
+                    let mut s: [(usize, usize, u8); 2] = kani::any();
+                    // message kinds are fixed per slot: the message is moved, never inspected, by the code under check
+                    s[0].2 = 0;
+                    s[1].2 = 1;
+                    let mut v = Vec::new();
+                    let mut i = 0;
+                    while i < n {
+                        // precondition of the contract: the displaced range is representable
+                        kani::assume(s[i].0 <= usize::MAX - offset && s[i].1 <= usize::MAX - offset);
+                        v.push(SplError(s[i].0..s[i].1, msg(s[i].2)));
+                        i += 1;
+                    }
+                    let r = v.shift(offset);
+                    kani::cover!(n == $n && offset > 0, "all elements moved");
+                    assert!(r.len() == n);
+                    let mut i = 0;
+                    while i < n {
+                        assert!(r[i].0.start == s[i].0 + offset && r[i].0.end == s[i].1 + offset);
+                        assert!(same_kind(&r[i].1, s[i].2));
+                        i += 1;
+                    }
+                }
+            }
+        };
     }
+    harnesses!(n1, 1);
+    harnesses!(n2, 2);
 }
 
 fn main() {}
